@@ -12,7 +12,7 @@ for r, i, m in zip(req, imp, mod):
     if not r:
         continue
     a, b = m.split(' ## ') if ' ## ' in m else (m, '-')
-    if a != i:
+    if a != '-' and a != i:
         mm += 1; byk['M ' + ' '.join(r.split(' ')[:2])] += 1
         if len(ex) < int(sys.argv[2]) if len(sys.argv) > 2 else 6: ex.append(('M', r, i, a))
     if b != '-' and b != i:
